@@ -12,6 +12,9 @@ IMPORTS = ["SodiumModel.Properties.C10", "SodiumModel.Properties.C10Fe25"]
 # the build WITHOUT 128-bit integers: the radix-2^25.5 field code is modelled and proved to be GF(2^255-19); X25519 over it = RFC 7748 = X25519 over the 51-bit code
 THEOREMS = THEOREMS + vcore.theorems_in("SodiumModel/Properties/C10Fe25.lean", ["mul_no_overflow", "mul_spec", "sq_spec", "sq2_spec", "mul32_spec", "frombytes_spec", "reduce_spec", "tobytes_spec",
                                         "tobytes_tight", "invert_spec", "pow22523_spec", "fe25_refines", "x25519_fe25_eq_rfc7748", "x25519_fe25_eq_fe51"], "Sodium.C10Fe25")
+# Poly1305 of the same build (donna32, for 32- and 64-bit `unsigned long`) = spec = donna64; the byte-shift load / store fallbacks of common.h (builds without NATIVE_LITTLE_ENDIAN) = the memcpy forms
+THEOREMS = THEOREMS + vcore.theorems_in("SodiumModel/Properties/C10Donna32.lean", ['wok64', 'wok32', 'init_spec32', 'init_inv32', 'blocks_spec32', 'blocks_no_overflow32', 'blocks_width_indep', 'finish_spec32', 'donna32_eq_abstract', 'donna32_mac_eq_specW', 'donna32_mac_eq_spec', 'donna32_mac_oneshot', 'donna32_ilp32_mac_eq_spec', 'donna32_lp64_eq_ilp32', 'donna32_eq_donna64', 'load64_le_shift_eq', 'store64_le_shift_eq', 'load32_le_shift_eq', 'store32_le_shift_eq', 'store64_be_shift_eq', 'store32_be_shift_eq', 'load64_be_shift_eq', 'load32_be_shift_eq', 'load32_be_short_differs', 'load64_le_shift_val', 'load32_le_shift_val', 'load64_be_shift_val', 'load32_be_shift_val', 'store64_le_shift_val', 'store32_le_shift_val', 'store64_be_shift_val', 'store32_be_shift_val', 'load64_le_store64_le', 'load32_be_store32_be', 'donna32_LOAD32_LE_shift', 'donna64_LOAD64_LE_shift', 'store32_shift', 'store64_shift', 'siphash_load64le_shift', 'chacha_load32le_shift', 'chacha_store32le_shift'], "Sodium.C10Donna32")
+IMPORTS = IMPORTS + ["SodiumModel.Properties.C10Donna32"]
 tie_b = lambda ctx: tie_b_fe25(ctx)
 FINGERPRINTS = "C10"
 RULE = ("(1) decoder co-simulation, exhaustive: all 2^18 combinations of the relevant CPUID/XCR0 bits through hook H2 against the Lean decoder, in the native build "
